@@ -479,14 +479,16 @@ func trimPathPrefix(u *url.URL, prefix string) *url.URL {
 	if u.RawQuery != "" || u.ForceQuery == true {
 		trimmedURI = trimmedPath + "?" + u.RawQuery
 	}
-	if u.Fragment != "" {
-		trimmedURI = trimmedURI + "#" + u.Fragment
-	}
-	trimmedURL, err := url.Parse(trimmedURI)
+	// The remainder is a path (plus query), whatever it looks like: parsed
+	// as a general URL reference, one that begins with "//" would be taken
+	// for a host, and a redirect built from it would leave the site.
+	trimmedURL, err := url.ParseRequestURI(trimmedURI)
 	if err != nil {
 		log.Printf("[ERROR] Unable to parse trimmed URL %s: %v", trimmedURI, err)
 		return u
 	}
+	trimmedURL.Fragment = u.Fragment
+	trimmedURL.RawFragment = u.RawFragment
 	return trimmedURL
 }
 
